@@ -99,7 +99,7 @@ static inline FlexPath* gen_simple_path(Rng& g, const GenOpts& o) {
     double width = (double)(2 * g.below(40)) * o.grid;  // even number of grid units: half width exact
     fp->init(Vec2{x * o.grid, y * o.grid}, width, 0, 1e-9, make_tag((uint32_t)g.below(60), (uint32_t)g.below(60)));
     fp->simple_path = true;
-    fp->scale_width = g.coin();
+    fp->scale_width = width == 0 ? true : g.coin();  // a zero-width path re-loads with scale_width = true
     int n = 1 + (int)g.below(5);
     for (int i = 0; i < n; i++) {
         // Manhattan-ish steps of at least one grid unit so that no point is dropped as overlapping
